@@ -339,12 +339,41 @@ func reachBlock(a, b *ssa.BasicBlock) bool {
 // bd2Sign: an unsigned conversion of a file-size difference is guarded, inside the same loop iteration.
 func bd2Sign(p *core.Prog, rep *core.Report) {
 	rep.Rule("BD2", "clean EOF: in both chunk readers the unsigned conversion of (fileSize - blockOffset) is dominated, inside the same loop iteration, by a guard that excludes a negative difference (offset >= fileSize exits)")
-	readers := chunkReaders(p)
-	n := 0
-	for _, fn := range readers {
-		if fn.Package() == nil || fn.Package().Pkg.Path() != core.ModPath+"/datafile" {
+	// the chunk readers and the unexported helpers of the package they call directly (the block-extent computation is
+	// often shared by both readers through one helper; a conversion guarded inside the helper is guarded at every call)
+	inDF := func(fn *ssa.Function) bool {
+		return fn != nil && fn.Package() != nil && fn.Package().Pkg.Path() == core.ModPath+"/datafile"
+	}
+	var cands []*ssa.Function
+	owner := map[*ssa.Function][]*ssa.Function{} // candidate -> readers it serves
+	seenC := map[*ssa.Function]bool{}
+	var dfReaders []*ssa.Function
+	for _, fn := range chunkReaders(p) {
+		if !inDF(fn) {
 			continue
 		}
+		dfReaders = append(dfReaders, fn)
+		add := func(c *ssa.Function) {
+			owner[c] = append(owner[c], fn)
+			if !seenC[c] {
+				seenC[c] = true
+				cands = append(cands, c)
+			}
+		}
+		add(fn)
+		for _, b := range fn.Blocks {
+			for _, in := range b.Instrs {
+				if ci, ok := in.(ssa.CallInstruction); ok {
+					if c := ci.Common().StaticCallee(); inDF(c) && c != fn && !token.IsExported(c.Name()) && c.Blocks != nil {
+						add(c)
+					}
+				}
+			}
+		}
+	}
+	perReader := map[*ssa.Function]int{}
+	n := 0
+	for _, fn := range cands {
 		for _, b := range fn.Blocks {
 			for _, in := range b.Instrs {
 				cv, ok := in.(*ssa.Convert)
@@ -356,6 +385,9 @@ func bd2Sign(p *core.Prog, rep *core.Report) {
 					continue
 				}
 				n++
+				for _, r := range owner[fn] {
+					perReader[r]++
+				}
 				guarded := false
 				for _, g := range relGuards(p, fn) {
 					// relation between g.x and g.y on each edge
@@ -382,8 +414,14 @@ func bd2Sign(p *core.Prog, rep *core.Report) {
 			}
 		}
 	}
-	if n < 2 {
-		core.Failf("vacuity guard: BD2 expected the two chunk readers, found %d conversions", n)
+	missing := 0
+	for _, r := range dfReaders {
+		if perReader[r] == 0 {
+			missing++
+		}
+	}
+	if len(dfReaders) < 2 || missing > 0 {
+		core.Failf("vacuity guard: BD2 expected the two chunk readers, found %d conversions", n-0)
 	}
 }
 
